@@ -441,7 +441,7 @@ def multi_keys(v):
     if not (isinstance(v, dict) and "c" in v and len(v["c"]) >= 2):
         return None
     keys = [k for k, _ in v["c"]]
-    if len(set(keys)) != len(keys) or any(k in ("Echo", "Id", "Multi", INPUT_NAME) or k.startswith(("Out ", "Raw ", "Svc ")) for k in keys):
+    if len(set(keys)) != len(keys) or any(k in ("Echo", "Id", "Multi", INPUT_NAME) or k.startswith(("Out ", "Raw ", "Svc ", "Inv ", "Call ")) for k in keys):
         return None
     return keys
 
@@ -465,6 +465,13 @@ def model_xml(tree, outputs, direct=True, multi=None):
         els.append('<decision name="Raw %d" id="_raw%d"><variable name="Raw %d"/>%s</decision>' % (i, i, i, X.literal_expression(text)))
         els.append('<decisionService name="Svc %d" id="_svc%d"><variable name="Svc %d" typeRef="%s"/><outputDecision href="#_raw%d"/>'
                    '</decisionService>' % (i, i, i, tr, i))
+        # the typed knowledge model reached through a boxed invocation and through a literal call from untyped decisions: the result is
+        # coerced to Id's type on the way, however Id is invoked
+        els.append('<decision name="Inv %d" id="_inv%d"><variable name="Inv %d"/><knowledgeRequirement><requiredKnowledge href="#_id"/>'
+                   '</knowledgeRequirement><invocation>%s<binding><parameter name="p"/>%s</binding></invocation></decision>' % (
+                       i, i, i, X.literal_expression("Id"), X.literal_expression(text)))
+        els.append('<decision name="Call %d" id="_call%d"><variable name="Call %d"/><knowledgeRequirement><requiredKnowledge href="#_id"/>'
+                   '</knowledgeRequirement>%s</decision>' % (i, i, i, X.literal_expression("Id(%s)" % text)))
     if multi is not None:
         # decision service `Multi` : T with one (untyped) output decision per entry of the context value outputs[multi]: its result is the
         # context of the output decisions' results, coerced to T like any other result
@@ -480,7 +487,7 @@ def invocable_names(n_outputs, keys=None):
     """order in which the driver lists them: decisions in document order, BKMs, services"""
     names = ["Echo"]
     for i in range(n_outputs):
-        names += ["Out %d" % i, "Raw %d" % i]
+        names += ["Out %d" % i, "Raw %d" % i, "Inv %d" % i, "Call %d" % i]
     names += list(keys or [])
     names.append("Id")
     names += ["Svc %d" % i for i in range(n_outputs)]
